@@ -336,7 +336,175 @@ def C19(ctx):
                     (",".join(kinds), "sampled: first 4, last, 2 random" if q else "all positions", stopped, multi)}
 
 
+# ---------------------------------------------------------------------------------------------
+def C12(ctx):
+    q = ctx.quick
+    from concurrent.futures import ThreadPoolExecutor
+    with ThreadPoolExecutor(max_workers=2) as ex:
+        fm = ex.submit(tlc, "Track", "MCTrack", workers=6, consts={"MaxOps": 3 if q else 4}, timeout=3000)
+        fg = ex.submit(tlc, "Track", "GenTrack", workers=1, coverage=False, simulate=1500 if q else 20000, depth=14, seed=ctx.seed)
+        r, g = fm.result(), fg.result()
+    tlc_must_pass(r, "MCTrack")
+    ctx.add_tlc(r)
+    seqs = g.printed("B")
+    if len(seqs) < 200:
+        raise ToolError("GenTrack produced only %d operation sequences" % len(seqs))
+    pin, pout = ctx.wpath("track-in.ndjson"), ctx.wpath("track-out.ndjson")
+    write_ndjson(pin, seqs)
+    vh("vh_store", ["track", "run"], stdin_path=pin, stdout_path=pout)
+    evs = read_ndjson(pout)
+    pr = ctx.wpath("track-rec.ndjson")
+    vh("vh_store", ["track", "record", "seed=%d" % ctx.seed, "runs=%d" % (150 if q else 3000), "len=%d" % (40 if q else 60)], stdout_path=pr)
+    evs += read_ndjson(pr)
+    for f in (pin, pout, pr):
+        os.unlink(f)
+    for e in evs:
+        if e["a"] == "panic":
+            ctx.violation("track:panic", "Track panicked: %s" % json.dumps(e)[:300], e)
+    # cut at "init" events (TraceTrack resets its state there)
+    for e in evs:
+        if e["a"] == "init":
+            e["_cut"] = True
+    ctx.sample({"recorded_run": [x for x in evs[:14]]})
+    runs = []
+    for e in evs:
+        if e["a"] == "init":
+            runs.append([])
+        runs[-1].append({k: v for k, v in e.items() if k != "_cut"})
+    n = 10
+    chunks = [[e for r_ in runs[i::n] for e in r_] for i in range(n)]
+
+    def one(i):
+        p = ctx.wpath("track-chunk%d.ndjson" % i)
+        write_ndjson(p, chunks[i])
+        ok, idx, rr = validate_trace("Track", "TraceTrack", p)
+        os.unlink(p)
+        return ok, idx, rr, chunks[i]
+
+    with ThreadPoolExecutor(max_workers=6) as ex:
+        res = list(ex.map(one, range(n)))
+    for ok, idx, rr, ch in res:
+        ctx.cov["evaluations"] += len(ch)
+        if ok:
+            ctx.cov["traces_validated_against_impl"] += sum(1 for e in ch if e["a"] == "init")
+            continue
+        i = (idx or 1) - 1
+        s0 = max(j for j in range(i + 1) if ch[j]["a"] == "init")
+        ctx.violation("track:%s" % ch[i]["a"], "Track run rejected at operation %s" % json.dumps(ch[i])[:200],
+                      {"run": ch[s0:i + 1], "tlc_violated": rr.violated})
+    # binding self-test: a corrupted result must be rejected
+    bad = json.loads(json.dumps(runs[0]))
+    for e in bad:
+        if e["a"] == "finalize":
+            e["upd"] = e["upd"] + [[1, 1, 3]] if not any(u[0] == 1 and u[1] == 1 for u in e["upd"]) else [u for u in e["upd"] if not (u[0] == 1 and u[1] == 1)]
+    p = ctx.wpath("track-selftest.ndjson")
+    write_ndjson(p, bad)
+    ok, idx, rr = validate_trace("Track", "TraceTrack", p)
+    os.unlink(p)
+    if ok:
+        raise ToolError("self-test: TraceTrack accepted corrupted state updates")
+    return {"distinct_nontrivial": len({json.dumps(r_, sort_keys=True) for r_ in runs if len(r_) > 3}),
+            "rule": "S: TLC checks on every operation sequence of length <= %d over all base databases (2 keys x 2 values, 3 partitions) that "
+                    "the tracked diff always reproduces the abstract view (DiffComplete), untouched locations keep the database value "
+                    "(Frame), only written locations differ (ForceOnly) and a reverted new node disappears. G': TLC chooses the operation "
+                    "sequences (GenTrack, seeded simulation: get/set/remove/limited scan/drain/sorted scan with limits 0..5/create node/"
+                    "force write/revert over a map partition, a sorted partition and a node created in the transaction, 4 keys x 3 values), "
+                    "the harness executes them on the real Track over an InMemorySubstateDatabase and records every result and the final "
+                    "state updates; T: TraceTrack.tla accepts a recording only if every event is an instance of the specification's action "
+                    "with the recorded result (scan/drain: any duplicate-free choice of present entries of the right length). Plus seeded "
+                    "random sequences generated in the harness. distinct = distinct recorded runs with > 3 events" % (3 if q else 4)}
+
+
+# ---------------------------------------------------------------------------------------------
+def C07(ctx):
+    q = ctx.quick
+    from concurrent.futures import ThreadPoolExecutor
+    cs = {"E": 1, "R": 2, "MaxEpoch": 5} if q else {"E": 2, "R": 4, "MaxEpoch": 7}
+    with ThreadPoolExecutor(max_workers=3) as ex:
+        fm = ex.submit(tlc, "TxTracker", "TxTracker", cfg="MCTxTracker", workers=6, consts=cs, timeout=3400)
+        fb = ex.submit(tlc, "TxTracker", "TxTracker", cfg="MCTxTrackerBad", workers=2)
+        fg = ex.submit(tlc, "TxTracker", "GenTxTracker", workers=1, coverage=False)
+        r, rb, g = fm.result(), fb.result(), fg.result()
+    tlc_must_pass(r, "MCTxTracker", required_actions=["NextEpoch", "Submit", "Tick"])
+    ctx.add_tlc(r)
+    if rb.violated != "Covered":
+        raise ToolError("negative control failed: with R > (P-1)*E the model must reach the uncovered-expiry panic")
+    cases = g.printed("B")
+    if len(cases) < 100:
+        raise ToolError("GenTxTracker produced %d cases" % len(cases))
+    ctx.sample({"unit_case": {k: v for k, v in cases[7].items() if k != "probes"}, "probes": cases[7]["probes"][:6]})
+    replay_behaviours(ctx, "vh_exec", "tracker", cases, mode="unit")
+    tp = ctx.wpath("tracker-ledger.ndjson")
+    vh("vh_exec", ["tracker", "ledger", "seed=%d" % ctx.seed, "runs=%d" % (6 if q else 60), "len=%d" % (90 if q else 150)], stdout_path=tp)
+    evs = read_ndjson(tp)
+    tp2 = ctx.wpath("tracker-ledger-long.ndjson")
+    vh("vh_exec", ["tracker", "ledger", "seed=%d" % (ctx.seed + 7), "runs=%d" % (1 if q else 6), "len=%d" % (150 if q else 380), "long=1"], stdout_path=tp2)
+    evs += read_ndjson(tp2)
+    os.unlink(tp)
+    os.unlink(tp2)
+    subs = [e for e in evs if e["a"] == "submit"]
+    ctx.sample({"ledger_events": subs[3:6]})
+    for e in subs:
+        if e["result"].startswith("panic") or e["result"].startswith("reject:") or e["result"] == "abort":
+            ctx.violation("tracker:unexpected-result", "unexpected result %s" % e["result"], e)
+    _validate_split(ctx, "TxTracker", "TraceTxTracker", evs, "tracker:ledger-trace", "replay protection on the ledger")
+    # binding self-test: flipping one verdict must be rejected
+    run0 = []
+    for e in evs:
+        if e["a"] == "reset" and run0:
+            break
+        run0.append(json.loads(json.dumps(e)))
+    flipped = False
+    for e in run0:
+        if e["a"] == "submit" and e["result"] == "PreviouslyCommitted":
+            e["result"] = "success"
+            flipped = True
+            break
+    if flipped:
+        p = ctx.wpath("tracker-selftest.ndjson")
+        write_ndjson(p, run0)
+        ok, idx, rr = validate_trace("TxTracker", "TraceTxTracker", p)
+        os.unlink(p)
+        if ok:
+            raise ToolError("self-test: TraceTxTracker accepted a replayed intent reported as committed")
+    res = {}
+    for e in subs:
+        res[e["result"]] = res.get(e["result"], 0) + 1
+    return {"distinct_nontrivial": len({json.dumps([e["its"], e["result"]]) for e in subs}),
+            "ledger_results": res,
+            "rule": "S: TLC checks Retained, Covered, NoLag, NoReplay, InWindow on every history of a small ring (P=3, E=%d, R=%d, epochs 0..%d, "
+                    "2 intents, V1 and V2 with a subintent, success and failure, system-transaction ticks) and, as a negative control, that "
+                    "R > (P-1)*E reaches the uncovered-expiry panic. G: %d ring-arithmetic cases (P 1..4, E 1..3, 0..9 advances, every epoch "
+                    "around the window) replayed into the real TransactionTrackerSubstateV1 with the model's constants. T: seeded ledger "
+                    "histories at the real constants (191 x 100 epochs, range 8640): epoch changes, fresh and repeated V1 transactions and "
+                    "V2 transactions wrapping a subintent (committed as success or failure), windows incl. not-yet-valid/expired/max-range; "
+                    "every verdict and the tracker's start epoch/partition after every commit validated by TraceTxTracker.tla (%d "
+                    "submissions, %d epochs covered). distinct = distinct (intents, result)" %
+                    (cs["E"], cs["R"], cs["MaxEpoch"], len(cases), len(subs), max([e["to"] for e in evs if e["a"] == "setepoch"] + [0]))}
+
+
 PROPS = {
+    "C07": dict(fn=C07, level="model_checking", design_ref="5/C07",
+                technique="TLA+ spec TxTracker (partition ring, boot checks, record/advance per commit): TLC exhaustive check + unit replay of the ring arithmetic + trace validation of real ledger histories at the protocol constants",
+                text="TLC checks on all histories of a small ring that a recorded intent stays findable until its window has passed, that no "
+                     "intent is committed twice (subintents: succeeds twice), that commits happen only inside the window and that the "
+                     "tracker always covers admissible expiries. The ring arithmetic of the real struct is replayed with the model's "
+                     "constants, and seeded histories on a real ledger (V1 and V2 with subintents, epoch jumps, re-submissions) are "
+                     "validated event by event, including the tracker's stored start epoch/partition after every commit.",
+                note="Trusted: TLC, the intent identity bookkeeping in the harness. Epochs are moved with the test helper set_current_epoch "
+                     "(modelled as its own action); a full wrap of the 191-partition ring is covered at unit level with small constants, "
+                     "ledger histories cross up to dozens of partition boundaries."),
+    "C12": dict(fn=C12, level="model_checking", design_ref="5/C12",
+                technique="TLA+ spec Track (abstract view + nondeterministic limited scans): TLC exhaustive check + TLC-chosen operation sequences executed on the real Track, recordings validated by TraceTrack",
+                text="Track.tla states what every operation of the transaction substate cache must return in terms of the abstract view "
+                     "(database overlaid with the transaction's creations, writes and removals); limited scans and drains are "
+                     "nondeterministic about which present entries they return, exactly as the statement. TLC checks the view/diff/revert "
+                     "laws exhaustively on a small instance; TLC-generated and seeded operation sequences are executed on the real Track and "
+                     "every recorded result, the final state updates and the effect of revert_non_force_write_changes are validated "
+                     "against the specification's actions.",
+                note="Trusted: TLC, the key/value concretisation (Map keys, Sorted keys whose 2-byte prefix realises the model order). After a "
+                     "revert only what the engine does is exercised (no scans, no reads of blind-written locations: DESIGN lead L16). "
+                     "IO-access accounting and partition deletion are outside this property."),
     "C17": dict(fn=C17, level="model_checking", design_ref="5/C17",
                 technique="TLA+ spec StateTree (sparse-Merkle commitment as a term): TLC checks binding on a bounded universe; model behaviours replayed into the state tree, roots compared with the evaluated term",
                 text="The root the tree must have is specified independently of the Jellyfish algorithm as the collapsed binary sparse-Merkle "
